@@ -6,6 +6,7 @@ import (
 	"encoding/json"
 	"errors"
 	"fmt"
+	standardsubscriber "github.com/attestantio/vouch/services/beaconcommitteesubscriber/standard"
 	"io"
 	"math/big"
 	"runtime/debug"
@@ -1666,9 +1667,22 @@ func c16DutyElems() []c16DutyElem {
 		{"zero-fields", c16DutyJSON("0", "0", "0", "0", "0", "0"), true},
 		{"genesis-slot", c16DutyJSON("0", "1", "2", "128", "4", "3"), true},
 		{"position-beyond-length", c16DutyJSON("102", "1", "18446744073709551615", "1", "0", "18446744073709551615"), true},
+		{"committee-of-15", c16DutyJSON("103", "2", "1", "15", "4", "7"), true},
 		{"null", "null", true},
 		{"empty-object", "{}", true},
 	}
+}
+
+// c16RawDuties is the beacon node as the committee subscriber sees it: it delivers the decoded answer as it is.
+type c16RawDuties struct{ duties []*apiv1.AttesterDuty }
+
+func (d c16RawDuties) AttesterDuties(_ context.Context, _ *api.AttesterDutiesOpts) (*api.Response[[]*apiv1.AttesterDuty], error) {
+	out := make([]*apiv1.AttesterDuty, 0, len(d.duties))
+	for _, x := range d.duties {
+		c := *x
+		out = append(out, &c)
+	}
+	return &api.Response[[]*apiv1.AttesterDuty]{Data: out, Metadata: map[string]any{}}, nil
 }
 
 func c16DutyUnits(tier string) []hx.Unit {
@@ -1744,6 +1758,27 @@ func c16DutyUnits(tier string) []hx.Unit {
 				if n != len(duties) {
 					st.outcome += "/dropped"
 				}
+				// the same answer as the committee subscriber obtains it: the real subscriber and the real aggregator
+				// (committee lengths of the duties enter the aggregator selection)
+				ctx, cancel := mcontext.WithCancel(context.Background())
+				defer cancel()
+				signer := &c14Signer{sigs: map[phase0.BLSPubKey]phase0.BLSSignature{}}
+				accts := &accountsTable{byIndex: map[phase0.ValidatorIndex]*hAccount{}}
+				accounts := map[phase0.ValidatorIndex]e2wtypes.Account{}
+				for i := 0; i < 3; i++ {
+					a := newAccount("W", fmt.Sprintf("v%d", i), byte(i+1))
+					accts.byIndex[phase0.ValidatorIndex(i)] = a
+					accounts[phase0.ValidatorIndex(i)] = a
+					signer.sigs[a.pubkey()] = phase0.BLSSignature{byte(i + 1)}
+				}
+				subscriber, err := standardsubscriber.New(ctx, standardsubscriber.WithLogLevel(zerolog.Disabled), standardsubscriber.WithMonitor(&nullmetrics.Service{}),
+					standardsubscriber.WithProcessConcurrency(2), standardsubscriber.WithChainTimeService(newChainTime(-int64(96)*int64(12*time.Second), 12*time.Second, 32)),
+					standardsubscriber.WithAttesterDutiesProvider(c16RawDuties{duties}), standardsubscriber.WithAttestationAggregator(c14NewAggregator(signer, 16, accts)),
+					standardsubscriber.WithBeaconCommitteeSubmitter(&c14SubSubmitter{}))
+				must(err)
+				info, err := subscriber.Subscribe(ctx, 3, accounts)
+				mc.Sleep(int64(100 * time.Millisecond))
+				st.outcome += fmt.Sprintf("/subscribed-slots=%d/err=%v", len(info), err != nil)
 			})
 		}))
 	}
@@ -1963,8 +1998,48 @@ func c16SubmitUnits(tier string) []hx.Unit {
 	return units
 }
 
+// ---- family: a bid request after an auction, through the block relay service ---------------------------------
+
+// c16RelayServiceUnits: the relay's answer to the auction is good / absent / below the minimum / an error /
+// without data / badly signed; the beacon node then asks vouch's builder endpoint for the bid of the same slot,
+// parent and proposer (served from the cache the auction filled) and for one of another parent.
+func c16RelayServiceUnits(_ string) []hx.Unit {
+	var units []hx.Unit
+	for _, defect := range []string{"none", "belowmin", "error", "nildata", "badsig", "zerovalue", "timestamp"} {
+		defect := defect
+		st := &c16State{fam: "relay-service"}
+		units = append(units, c16Unit("C16/relay-service/bid-after-auction/"+defect, 400*time.Second, st, func() {
+			c09Init()
+			e := &c09Env{cfgKind: "none", given: make([][]c09Given, 1)}
+			util.VerifResetBuilderClients()
+			defer util.VerifResetBuilderClients()
+			r := &c09Relay{idx: 0, env: e, value: 10, bldr: 'Y', hdr: 1, defect: defect}
+			e.relays = append(e.relays, r)
+			util.VerifSetBuilderClient(r.Address(), r)
+			mc.Sleep(int64(time.Duration(c09Slot)*12*time.Second) - mc.Now())
+			ctx, cancel := mcontext.WithCancel(context.Background())
+			defer cancel()
+			v1 := newAccount("W", "v1", 1)
+			accts := &accountsTable{byIndex: map[phase0.ValidatorIndex]*hAccount{1: v1}}
+			strat := c09Strats()[0]
+			svc := c09NewBlockRelay(ctx, e, &strat, "none", accts)
+			st.nontriv = defect != "none"
+			st.input = "relay answers the auction with: " + defect
+			st.call(func() {
+				res, err := svc.AuctionBlock(ctx, c09Slot, phase0.Hash32{9}, v1.pubkey())
+				b1, err1 := svc.BuilderBid(ctx, c09Slot, phase0.Hash32{9}, v1.pubkey())
+				b2, err2 := svc.BuilderBid(ctx, c09Slot, phase0.Hash32{8}, v1.pubkey())
+				st.outcome = fmt.Sprintf("auction-winner=%v/err=%v;cached-bid=%v/err=%v;other-parent-bid=%v/err=%v",
+					res != nil && res.WinningParticipation != nil, err != nil, b1 != nil, err1 != nil, b2 != nil, err2 != nil)
+			})
+		}))
+	}
+	return units
+}
+
 func c16Units(tier string) []hx.Unit {
 	var units []hx.Unit
+	units = append(units, c16WithTraced(c16RelayServiceUnits(tier))...)
 	units = append(units, c16ConfigUnits(tier)...)
 	units = append(units, c16WithTraced(c16BidUnits(tier))...)
 	units = append(units, c16WithTraced(c16ProposeUnits(tier))...)
@@ -1986,6 +2061,7 @@ func init() {
 			"proposals = Prepare+Propose of the real proposer for phase0..deneb x blinded header x auctioneer {none, error, no relays, no winner, winner, winner that cannot unblind} x every single replacement in the proposal (to depth 4) x value headers x unblinding answers {block, 400, error, no data}; the same proposals through the best proposal strategy with 1-2 nodes; " +
 			"graffiti = 16 file contents of the dynamic provider (plain, 32 bytes, longer, {{CLIENT}} templates, missing, error) x node client names of length 0,1,4,8,10,40 / error / no name, through proposer and best strategy; " +
 			"attester duties = all lists up to length 3 (thorough 4) over 13 elements (duplicates, out-of-epoch, slot 2^63 and 2^64-1, unknown validator, zero fields, null, {}); head and block events with zero / maximal fields and without data, the fetched block being any single replacement (to depth 5) of a signed block of each version, at service start and on the event, for the cache and the proposal strategy; " +
+			"bid requests after an auction = the real block relay service, relay answer to the auction {good, below minimum, error, no data, bad signature, zero value, wrong timestamp}, then the builder endpoint's bid request for the same and for another parent; the attester duties are also taken through the real committee subscriber and aggregator (committee lengths 0, 1, 15, 64, 128); " +
 			"lighthouse/teku error JSON (26 texts incl. failures:[null], plus 40 texts whose failure index lies inside, on the edge of, outside or far outside the batch of 1-2 items) through the multinode submitter; top-level configuration documents that are no object (null, empty, [], scalars) or carry only a version; proposal, bid, event and graffiti families are run both with logging disabled and with trace logging (output discarded); " +
 			"oracle: no panic and the call returns; non-trivial = the input has at least one absent/null/zero/unparsable element; distinct = distinct (family, outcome) labels",
 		Assumptions: []string{
